@@ -287,6 +287,11 @@ func dirtyPool(spec string, trap bool) []dirtyCase {
 	pool := []dirtyCase{
 		// no instruction executed (the cycle counter stays 0), but the script touched memory
 		{"zerocycle", prg(0x0800, 0x00), "function arrange() write_byte(0x0340, 7) read_byte(0x0340) read_byte(0x0341) end\nfunction assert() return true end\n" + trapFn},
+		// cases that would pick up something a previous SCRIPT left behind (a global such as num_iterations or trap):
+		// re-entered from the load address on every iteration but with no num_iterations of its own, and storing to the
+		// trap address with no trap function of its own
+		{"rerun", prg(0x0800, 0xE8, 0xE8, 0x00), "function arrange() set_pc(load_address) end\nfunction assert() return true end\n"},
+		{"trapless", prg(0x0800, 0xA9, 0x42, 0x8D, 0x00, 0x7F, 0xE8, 0x00), "function arrange() end\nfunction assert() return true end\n"},
 		{"highbank", prg(0x0800, 0xE8, 0x00), "function arrange() " + high + " end\nfunction assert() return true end\n" + trapFn},
 	}
 	return append([]dirtyCase{
